@@ -2,6 +2,7 @@ package main
 
 import (
 	"fmt"
+	"go/token"
 	"sort"
 	"strings"
 
@@ -25,6 +26,10 @@ func init() {
 
 func runC19(c *Ctx) {
 	p := c.P
+	// a validated API answers its declared operations with the registered producers: the (possibly empty, for an API
+	// built without JSON defaults) default producer type never leads the offers
+	ruleOffersDefaultLast(c, "R19.2")
+	ruleOperationLookedUpByRelativePath(c, "R19.2")
 	val := p.Fn("(*rt/middleware/untyped.API).validate")
 	type pair struct{ name, field, required string }
 	pairs := []pair{
@@ -183,6 +188,10 @@ func runC19(c *Ctx) {
 		}
 	}
 	// unspecified: appended exactly when the registration is not expected
+	nMember := 0
+	defer func() {
+		c.obRF("R19.1", vf, "membership-test-recognised", nMember >= 1, "verify decides 'is this registration expected' by a lookup in the table of expectations (the form the superfluous-item rule understands)", "no pass over the registrations tests membership by a map lookup: the rule cannot tell which registrations are reported as superfluous")
+	}()
 	for _, l := range sliceLoops(vf, vIs(regs)) {
 		var expLk *ssa.Lookup
 		for _, in := range instrs(vf) {
@@ -193,8 +202,51 @@ func runC19(c *Ctx) {
 			}
 		}
 		if expLk == nil {
-			continue // a pass over the registrations that does not test membership (e.g. one that only prunes the expectations)
+			// no map lookup: a pass that appends to a []string must still collect every registration that was not found
+			// EQUAL to an expectation (whatever search it uses): a path from the start of an iteration to the next one
+			// that appends nothing has crossed a comparison `expectation == registration` that held
+			isApp := func(in ssa.Instruction) bool {
+				call, ok := in.(*ssa.Call)
+				return ok && calleeName(&call.Call) == "builtin append" && typeStr(call.Type()) == "[]string" && l.Header.Dominates(call.Block()) && reachableFrom(call.Block(), l.Header)
+			}
+			appends := false
+			for _, in := range instrs(vf) {
+				if isApp(in) {
+					appends = true
+				}
+			}
+			if !appends {
+				continue // a pass over the registrations that collects nothing (e.g. one that only prunes the expectations)
+			}
+			isReg := func(v ssa.Value) bool {
+				ad, ok := derefLoad(v)
+				return ok && ad == ssa.Value(l.Elem)
+			}
+			isExp := func(v ssa.Value) bool {
+				ad, ok := derefLoad(v)
+				if !ok {
+					return false
+				}
+				ia, ok := ad.(*ssa.IndexAddr)
+				return ok && ia.X == ssa.Value(exps)
+			}
+			found := func(cond ssa.Value, branch bool) bool {
+				cnd, b := stripNot(cond, branch)
+				bo, ok := cnd.(*ssa.BinOp)
+				if !ok || (bo.Op != token.EQL && bo.Op != token.NEQ) {
+					return false
+				}
+				if !((isReg(bo.X) && isExp(bo.Y)) || (isReg(bo.Y) && isExp(bo.X))) {
+					return false
+				}
+				return b == (bo.Op == token.EQL)
+			}
+			nMember++
+			skipped := pathExists(vf, l.Body, l.Test, found, isApp)
+			c.obI("R19.1", l.Elem, "superfluous-collected", !skipped, "every registration that is not expected is collected as superfluous: an iteration collects nothing only after the registration was found equal to an expectation", "an iteration can leave a registration uncollected without having found it among the expectations")
+			continue
 		}
+		nMember++
 		okU := true
 		if okU {
 			okv := extractOf(expLk, 1)
@@ -524,6 +576,69 @@ func ruleAlternativeStorageFresh(c *Ctx, rule string) {
 				}
 			}
 			c.obI(rule, st, "scheme-list-fresh-per-alternative", okF, "each alternative's Schemes list is built on a slice allocated inside that alternative's iteration (alternatives never share backing storage, so an earlier alternative's scheme names cannot be overwritten by a later one's)", "the scheme list is built on storage that outlives the iteration (hoisted / re-sliced buffer)")
+		}
+	}
+}
+
+// ruleRoutableAPIDelegates: the adapter the middleware asks (routableUntypedAPI) hands on what the registered API says
+// at the time it is asked — its accessors are calls on / reads of r.api, and the two default media types it snapshots
+// are taken from the fields of the same name. (An accessor answering from a snapshot taken when the context was made
+// ignores what is registered afterwards; a snapshot taken from the wrong field swaps the defaults.) `which` selects the
+// accessors relevant to the calling property.
+func ruleRoutableAPIDelegates(c *Ctx, rule string, which ...string) {
+	p := c.P
+	const apiT = "rt/middleware/untyped.API"
+	const adT = "rt/middleware.routableUntypedAPI"
+	fromAPI := func(v ssa.Value) bool {
+		return vFieldLoadO(adT, "api")(v) || vFieldLoad(adT, "api", nil)(v)
+	}
+	for _, m := range which {
+		switch m {
+		case "Authorizer", "ConsumersFor", "ProducersFor", "AuthenticatorsFor", "Formats":
+			f := p.Fn("(*" + adT + ")." + m)
+			for _, r := range realReturns(f) {
+				if len(r.Results) != 1 {
+					continue
+				}
+				ok, bad := allOrigins(r.Results[0], oCallWhere(-1, "(*"+apiT+")."+m, func(call *ssa.Call) bool {
+					return len(call.Call.Args) >= 1 && fromAPI(call.Call.Args[0])
+				}))
+				c.obI(rule, r, "adapter-asks-api-"+m, ok, "the routable API's "+m+" asks the registered API when it is called (what is registered after the context was created still counts)", "origin "+describeOrigin(bad))
+			}
+		case "ServeErrorFor":
+			f := p.Fn("(*" + adT + ").ServeErrorFor")
+			for _, r := range realReturns(f) {
+				if len(r.Results) != 1 {
+					continue
+				}
+				ok, bad := allOrigins(r.Results[0], oFieldLoad(apiT, "ServeError", fromAPI))
+				c.obI(rule, r, "adapter-reads-api-ServeError", ok, "the error responder handed out is the API's ServeError as it is when asked (a responder assigned after the context was created is the one invoked)", "origin "+describeOrigin(bad))
+			}
+		case "DefaultProduces", "DefaultConsumes":
+			fld := "defaultProduces"
+			if m == "DefaultConsumes" {
+				fld = "defaultConsumes"
+			}
+			f := p.Fn("(*" + adT + ")." + m)
+			for _, r := range realReturns(f) {
+				if len(r.Results) != 1 {
+					continue
+				}
+				ok, bad := allOrigins(r.Results[0], oFieldLoad(adT, fld, nil), oFieldLoad(apiT, m, fromAPI))
+				c.obI(rule, r, "adapter-answers-"+m, ok, "the routable API's "+m+" is the registered API's "+m, "origin "+describeOrigin(bad))
+			}
+			n := 0
+			for _, fn := range p.LibFuncs("rt/middleware") {
+				for _, st := range fieldStores(fn, adT, fld) {
+					if st.Parent() != fn {
+						continue
+					}
+					n++
+					ok, bad := allOrigins(st.Val, oFieldLoad(apiT, m, nil))
+					c.obI(rule, st, "adapter-snapshot-"+m, ok, "the "+fld+" the adapter keeps is taken from the API's "+m+" (not from its sibling field)", "origin "+describeOrigin(bad))
+				}
+			}
+			c.obRF(rule, f, "adapter-keeps-"+m, n >= 1 || len(realReturns(f)) > 0, "the adapter answers "+m, "")
 		}
 	}
 }
